@@ -342,7 +342,7 @@ func judgeRaces(c *lib.Ctx, dir string, races []*race) error {
 	var mu sync.Mutex
 	var firstErr error
 	var rejected []*race
-	lib.Parallel(len(batches), 3, func(bi int) {
+	lib.Parallel(len(batches), 1, func(bi int) {
 		rej, err := judgeBatch(c, dir, batches[bi])
 		mu.Lock()
 		defer mu.Unlock()
